@@ -54,7 +54,7 @@ func c04Gen(c *vfCtx, emit func(c04Case)) {
 		}
 		ps := pairs
 		if len(layout) >= 4 {
-			ps = pairs[:8]
+			ps = pairs[:14]
 		}
 		for _, p := range ps {
 			rec(layout, append(acc, c04Entry{Test: layout[len(acc)], Old: p.o, New: p.n}), f)
